@@ -415,13 +415,14 @@ def shards(tier, seed):  # pylint: disable=unused-argument
                                  {'ALG': alg, 'EXPLEN': explen, 'MODLEN': modlen, 'DIM': dim}, 600,
                                  bounds='DNSKEY algorithm %d: %d-byte exponent, %d-byte modulus (%s symbolic), RFC 3110 '
                                         'one-octet length form' % (alg, explen, modlen, dim)))
-    for alg, size, high in ((13, 32, False), (14, 48, False)) + (((13, 32, True),) if thorough else ()):
+    # (P-384 goes through the same code as P-256 with longer coordinates: ~6 min per shard, thorough tier only)
+    for alg, size, high in ((13, 32, False),) + (((14, 48, False), (13, 32, True)) if thorough else ()):
         out.append(Shard(MOD, 'dnskey_curve', 'dnskey/ecdsa-alg%d%s' % (alg, '-high' if high else ''),
                          {'KIND': 'ecdsa', 'ALG': alg, 'SIZE': size, 'HIGH': high,
-                          'BITS': 40 if thorough else (16 if alg == 13 else 8)},
+                          'BITS': 40 if thorough else 16},
                          1800 if thorough else 600,
                          bounds='DNSKEY algorithm %d: coordinates with %d symbolic bits (%s end), leading zeros kept' % (
-                             alg, 40 if thorough else (16 if alg == 13 else 8), 'high' if high else 'low')))
+                             alg, 40 if thorough else 16, 'high' if high else 'low')))
     out.append(Shard(MOD, 'dnskey_curve', 'dnskey/ed25519', {'KIND': 'eddsa', 'ALG': 15, 'SIZE': 32}, 300,
                      bounds='DNSKEY algorithm 15: 32-byte key, first two bytes symbolic'))
     for dim in ('alg', 'tag', 'digest_type'):
